@@ -82,6 +82,36 @@ def c02cwr (a : List String) (obs : String) : String × String :=
     (model, verdict)
   | _ => ("BADOP", "skip")
 
+/-- short write, then the caller retries the tail through the same writer -/
+def cwrrLoop (c : CipherWr) : List (Bytes × Int) → Bytes → List String → Bytes × List String
+  | [], acc, res => (acc, res.reverse)
+  | (p, a) :: rest, acc, res =>
+    let n := if a < 0 ∨ a.toNat ≥ p.length then p.length else a.toNat
+    match c.write p n with
+    | (none, _, _) => (acc, ("PANIC" :: res).reverse)
+    | (some sent, c', _) =>
+      if n < p.length then
+        match c'.write (p.drop n) (p.length - n) with
+        | (none, _, _) => (acc, ("PANIC" :: res).reverse)
+        | (some sent2, c2, _) => cwrrLoop c2 rest (acc ++ sent ++ sent2) (s!"retry{p.length - n}:nil" :: s!"{n}:dfail" :: res)
+      else cwrrLoop c' rest (acc ++ sent) (s!"{n}:nil" :: res)
+
+def c02cwrr (a : List String) (obs : String) : String × String :=
+  match a with
+  | [m, accs, ps] =>
+    let mk := parseMask m
+    let pl := (ps.splitOn ",").map hexOr
+    let al := parseInts accs
+    let ws := pl.zipIdx.map fun (p, i) => (p, al.getD i (-1))
+    let (dst, res) := cwrrLoop ⟨mk, 0⟩ ws [] []
+    let model := s!"{Bytes.toHex dst} {",".intercalate res} intact=1"
+    let exp := Bytes.toHex (xorSpec pl.flatten mk 0)
+    let f := obs.splitOn " "
+    let verdict := if f.getLast? != some "intact=1" then "bad:caller-bytes-modified"
+                   else if f.head? == some exp then "ok" else "bad:dest-bytes-not-rfc-xor-after-retried-short-write"
+    (model, verdict)
+  | _ => ("BADOP", "skip")
+
 def c02mf (a : List String) (obs : String) : String × String :=
   match a with
   | [v, f, r, o, m, k, _, nm, p] =>
